@@ -76,7 +76,9 @@ RECIPES = {
         monitors={"C13"},
         mc=[MC_QM, MC_NOOP],
         runs=[dict(cmd="run", gen="rejects:120,small:40,positions:40,aim-noop:60,edge63:20", policy="always_flush"),
-              dict(cmd="run", gen="rejects:30,aim-noop:10,positions:10", policy="do_nothing,always_fsync,on_delay_long_flush")],
+              # (on_delay_us: an interval of the order of one call - some no-ops arrive with bytes of earlier calls
+              # still buffered AND a persist due: a no-op that reaches the policy persist hands them to the OS)
+              dict(cmd="run", gen="rejects:30,aim-noop:10,positions:10", policy="do_nothing,always_fsync,on_delay_long_flush,on_delay_us_flush,on_delay_us_fsync")],
         rule="every rejected / no-op call: no write/create/set_len/unlink event, wal_bytes_written = 0, state, cursor "
              "and file list unchanged; restart-equality through the C01/C05 monitors of the same run; "
              "non-trivial = rejected or no-op calls",
